@@ -417,3 +417,90 @@ theorem orun_inv (body : Nat → V) (dflt : V) : ∀ (sched : List Nat) (s : OSt
     | some s' => exact orun_inv body dflt rest s' (ostep_inv body dflt s s' t h hst)
 
 end Nject.Conc
+
+namespace Nject.Conc
+
+structure LInv (s : LState) : Prop where
+  dbg : s.debug = true → ∃ t, s.writer = some t ∧ s.th t = .capturing
+  wr : ∀ t, s.writer = some t → s.th t = .capturing
+  noStuck : ∀ t, s.th t ≠ .stuck
+
+theorem setL_same (th : Nat → LPhase) (t : Nat) (p : LPhase) : setL th t p t = p := by simp [setL]
+theorem setL_other (th : Nat → LPhase) (t t' : Nat) (p : LPhase) (h : t' ≠ t) : setL th t p t' = th t' := by simp [setL, h]
+
+theorem linit_inv : LInv LState.init where
+  dbg := by intro h; simp [LState.init] at h
+  wr := by intro t h; simp [LState.init] at h
+  noStuck := by intro t; simp [LState.init]
+
+/-- a step of `t` that leaves the writer alone and moves `t` between non-capturing phases -/
+theorem linv_frame (s : LState) (t : Nat) (p : LPhase) (r : Nat) (hs : LInv s) (hp : s.th t ≠ .capturing)
+    (hp' : p ≠ .stuck) : LInv { s with readers := r, th := setL s.th t p } := by
+  refine ⟨?_, ?_, ?_⟩
+  · intro hd
+    obtain ⟨t0, hw, hc⟩ := hs.dbg hd
+    have : t0 ≠ t := by intro he; subst he; exact hp hc
+    exact ⟨t0, hw, by simp [setL_other _ _ _ _ this, hc]⟩
+  · intro t0 hw
+    have hc := hs.wr t0 hw
+    have : t0 ≠ t := by intro he; subst he; exact hp hc
+    simp [setL_other _ _ _ _ this, hc]
+  · intro t'
+    by_cases ht : t' = t
+    · subst ht; simp [setL_same, hp']
+    · simp only [setL_other _ _ _ _ ht]; exact hs.noStuck t'
+
+theorem lstep_inv (s s' : LState) (t : Nat) (c : Bool) (hs : LInv s) (h : lstep s t c = some s') : LInv s' := by
+  unfold lstep at h
+  cases hp : s.th t with
+  | idle =>
+    rw [hp] at h; simp only at h
+    cases c with
+    | true =>
+      simp only [if_true] at h
+      split at h
+      · rename_i hfree
+        simp only [Bool.and_eq_true, Option.isNone_iff_eq_none, beq_iff_eq] at hfree
+        -- the flag cannot be set: nobody holds the write lock
+        have hnd : s.debug = false := by
+          cases hd : s.debug with
+          | false => rfl
+          | true => obtain ⟨t0, hw, _⟩ := hs.dbg hd; rw [hfree.1] at hw; cases hw
+        simp only [hnd, Bool.false_eq_true, if_false] at h
+        cases h
+        refine ⟨fun _ => ⟨t, rfl, by simp [setL_same]⟩, ?_, ?_⟩
+        · intro t' ht'; cases ht'; simp [setL_same]
+        · intro t'
+          by_cases ht : t' = t
+          · subst ht; simp [setL_same]
+          · simp only [setL_other _ _ _ _ ht]; exact hs.noStuck t'
+      · cases h
+    | false =>
+      simp only [Bool.false_eq_true, if_false] at h
+      split at h
+      · cases h
+        exact linv_frame s t .reading _ hs (by rw [hp]; simp) (by simp)
+      · cases h
+  | reading =>
+    rw [hp] at h; simp only at h; cases h
+    exact linv_frame s t .idle _ hs (by rw [hp]; simp) (by simp)
+  | capturing =>
+    rw [hp] at h; simp only at h; cases h
+    refine ⟨?_, ?_, ?_⟩
+    · intro hd; simp at hd
+    · intro t' ht'; simp at ht'
+    intro t'
+    by_cases ht : t' = t
+    · subst ht; simp [setL_same]
+    · simp only [setL_other _ _ _ _ ht]; exact hs.noStuck t'
+  | stuck => exact absurd hp (hs.noStuck t)
+
+theorem lrun_inv : ∀ (sched : List (Nat × Bool)) (s : LState), LInv s → LInv (lrun sched s)
+  | [], s, h => h
+  | (t, c) :: rest, s, h => by
+    simp only [lrun]
+    cases hst : lstep s t c with
+    | none => exact lrun_inv rest s h
+    | some s' => exact lrun_inv rest s' (lstep_inv s s' t c h hst)
+
+end Nject.Conc
